@@ -1,14 +1,19 @@
 """C03 - JSON output is well formed and holds exactly the declared symbols."""
+import atexit
+import os
 import re
+import shutil
+import tempfile
 
-from vlib import gen, harness, pipeline, compiled
+from vlib import env, gen, harness, pipeline, compiled
 from vlib.mib import pyname
 from vlib.layout import Layout
 
 ID = 'C03'
 LEVEL = 'exploration'
 RULE = ('mixed-kind modules (1-60 declarations of all eleven kinds, hyphenated and look-alike names, '
-        'with and without texts, genTexts on/off) compiled by the real compiler with the JSON backend; '
+        'with and without texts, genTexts on/off, an eighth through a user template that only extends '
+        'the stock one) compiled by the real compiler with the JSON backend; '
         'the document is parsed with a duplicate-rejecting json.loads and compared with the model: key '
         'set, class, node type, status, access, units, revisions of every symbol against its own '
         'declaration; non-trivial = >=5 declaration kinds in one module; distinct = multiset of kinds')
@@ -50,12 +55,41 @@ def rev_time(t):
     return '%s-%s-%s %s:%s' % (t[0:4], t[4:6], t[6:8], t[8:10], t[10:12])
 
 
+_TDIR = []
+
+
+def user_template_dir():
+    if not _TDIR:
+        d = tempfile.mkdtemp(prefix='verif-c03t-', dir=env.scratch_root())
+        with open(os.path.join(d, 'custom-json.j2'), 'w') as f:
+            f.write('{% extends "jsondoc/base.j2" %}\n')
+        atexit.register(shutil.rmtree, d, True)
+        _TDIR.append(d)
+    return _TDIR[0]
+
+
 def run_case(idx, rng, tier, res):
     g = make_set(rng, tier)
     texts = g.texts((lambda: Layout(rng, 'noisy')) if rng.random() < 0.3 else None)
     gt = rng.random() < 0.5
-    c = compiled.Compiled(g, texts, backends=('json',), genTexts=gt)
-    replay = {'texts': texts, 'genTexts': gt}
+    opts = {}
+    cwd = None
+    if rng.random() < 0.12:
+        # a user template that merely extends the stock one (given, as mibdump gives it, by a path
+        # relative to the working directory): the document must be the same valid one
+        opts['dstTemplate'] = 'custom-json.j2'
+        cwd = os.getcwd()
+        os.chdir(user_template_dir())
+        res.count('compiled_through_a_user_template')
+    try:
+        c = compiled.Compiled(g, texts, backends=('json',), genTexts=gt, **opts)
+    finally:
+        if cwd:
+            os.chdir(cwd)
+    replay = {'texts': texts, 'genTexts': gt, 'options': opts}
+    if 'json' in c.raised:
+        res.violation('compile_raised', 'compile() raised %r (options %r)' % (c.raised['json'], opts), replay=replay,
+                      exc=type(c.raised['json']).__name__, template=bool(opts))
     for b, n, st, err in c.status_problems():
         res.violation('not_compiled', '%s: %s is %s (%s)' % (b, n, st, err), replay=replay)
     for n, exc in c.json_errors.items():
